@@ -1,4 +1,5 @@
 import DclabModel.Model.Poly
+import DclabModel.Model.PolyText
 import DclabModel.DriveUtil
 /-! Line-protocol driver for the polygon-filter model (C15).  Coordinates are exact rationals.
 
@@ -14,12 +15,90 @@ import DclabModel.DriveUtil
           → `<uid>:<inv>:<xaxis>:<yaxis>:<name>:<x y x y …>;… | <counter> <ids>`
     fmt <digits> <q>                text round trip of a binary64 value with that many
           significant digits                                               → `<p/q>`
+    dedup                           `dedupAdj` of the polygon (adjacent repeats removed)
+                                                                            → `<x y x y …>` | `-`
+    tfclear                         forget the stored text lines            → `ok`
+    tl <c,c,c…|->                   append one TEXT line of a .poly file (code points)  → `ok`
+    timport <counter> <id,…|->      `importAllT` (text-level `import_all`: header search, split at
+          the first '=', strip, keys, `strip("Polygon []")`) of the stored text; same answer
+          format as `import` with names/axes as `x<hex utf-8>`, or `raise`
+          (the lexer below turns digit runs after `[Polygon `/`point` into integer tokens and the
+          words of a point's value into float tokens = decimal value rounded to binary64)
+    create <uid|-> <uid|-> …        constructor calls on a cleared registry (`-` = no unique_id
+          given: the counter is used)                                      → `<counter> <ids>`
 -/
 open DclabModel.Poly DclabModel.DriveUtil
 
 structure D where
   poly : List (Pt Rat) := []
   file : List PF := []
+  text : List TLine := []
+
+/-! lexer for the text route (driver only, trusted) -/
+def digitVal (c : Char) : Nat := c.toNat - '0'.toNat
+def natOfDigits (l : List Char) : Nat := l.foldl (fun a c => 10 * a + digitVal c) 0
+
+/-- `[-+]ddd[.ddd][e[-+]dd]` → exact rational -/
+def parseDecimal (w : List Char) : Option Rat :=
+  let (neg, w) := match w with
+    | '-' :: r => (true, r)
+    | '+' :: r => (false, r)
+    | r => (false, r)
+  let ip := w.takeWhile Char.isDigit
+  let r1 := w.dropWhile Char.isDigit
+  let (fp, r2) := match r1 with
+    | '.' :: r => (r.takeWhile Char.isDigit, r.dropWhile Char.isDigit)
+    | r => ([], r)
+  if ip.isEmpty && fp.isEmpty then none else
+  let ex : Option Int := match r2 with
+    | [] => some 0
+    | e :: r =>
+      if e == 'e' || e == 'E' then
+        match r with
+        | '-' :: d => if d.all Char.isDigit && !d.isEmpty then some (-(natOfDigits d : Int)) else none
+        | '+' :: d => if d.all Char.isDigit && !d.isEmpty then some (natOfDigits d : Int) else none
+        | d => if d.all Char.isDigit && !d.isEmpty then some (natOfDigits d : Int) else none
+      else none
+  match ex with
+  | none => none
+  | some e =>
+    let m : Rat := (natOfDigits (ip ++ fp) : Nat)
+    let q := m * powI 10 (e - fp.length)
+    some (if neg then -q else q)
+
+/-- characters with every maximal digit run turned into an integer token -/
+partial def lexDigits : List Char → TLine
+  | [] => []
+  | c :: r =>
+    if c.isDigit then
+      let run := (c :: r).takeWhile Char.isDigit
+      Sym.nat (natOfDigits run) :: lexDigits ((c :: r).dropWhile Char.isDigit)
+    else Sym.ch c :: lexDigits r
+
+def lexWords (l : List Char) : TLine :=
+  let ws := (String.ofList l).splitOn " " |>.filter (· ≠ "")
+  ws.foldl (fun acc w =>
+    acc ++ [Sym.ch ' '] ++ (match parseDecimal w.toList with
+      | some q => [Sym.num (toDouble q)]
+      | none => cs w.toList)) []
+
+def lexLine (l : List Char) : TLine :=
+  let t := l.dropWhile (· == ' ')
+  match t with
+  | '[' :: _ => lexDigits l
+  | _ =>
+    let key := l.takeWhile (· ≠ '=')
+    let rest := l.dropWhile (· ≠ '=')
+    let klow := (key.dropWhile (· == ' ')).map Char.toLower
+    if klow.take 5 == kPoint then
+      lexDigits key ++ (match rest with
+        | '=' :: v => Sym.ch '=' :: lexWords (v.map fun c => if c == '\t' || c == '\n' || c == '\r' then ' ' else c)
+        | _ => cs rest)
+    else cs l
+
+def hexDigit (n : Nat) : Char := if n < 10 then Char.ofNat (48 + n) else Char.ofNat (87 + n)
+def tokHex (s : String) : String :=
+  s.toUTF8.toList.foldl (fun acc b => (acc.push (hexDigit (b.toNat / 16))).push (hexDigit (b.toNat % 16))) "x"
 
 def parsePts : List String → Option (List (Pt Rat))
   | [] => some []
@@ -57,6 +136,35 @@ def handle (d : D) (line : String) : D × String :=
       let (reg, fs) := importAll id (saveAll (fmtDigits 17) d.file) { ids := idl, counter := c }
       (d, joinWith ";" (fs.map showPF) ++ " | " ++ s!"{reg.counter} " ++ showNats reg.ids)
     | _, _ => (d, "bad-op")
+  | ["dedup"] =>
+    let r := dedupAdj d.poly
+    (d, if r.isEmpty then "-" else joinWith " " (r.map fun p => showRat p.x ++ " " ++ showRat p.y))
+  | ["tfclear"] => ({ d with text := [] }, "ok")
+  | ["tl", codes] =>
+    let l := if codes == "-" then some [] else parseNats (codes.splitOn ",")
+    match l with
+    | some l => ({ d with text := d.text ++ [lexLine (l.map Char.ofNat)] }, "ok")
+    | none => (d, "bad-op")
+  | ["timport", counter, ids] =>
+    let idl := if ids == "-" then some [] else parseNats (ids.splitOn ",")
+    match counter.toNat?, idl with
+    | some c, some idl =>
+      match importAllT id d.text { ids := idl, counter := c } with
+      | some (reg, fs) =>
+        let hexed : PF → PF := fun f =>
+          { f with xaxis := tokHex f.xaxis, yaxis := tokHex f.yaxis, name := tokHex f.name }
+        (d, joinWith ";" (fs.map fun f => showPF (hexed f))
+          ++ " | " ++ s!"{reg.counter} " ++ showNats reg.ids)
+      | none => (d, "raise")
+    | _, _ => (d, "bad-op")
+  | "create" :: uids =>
+    let step : Option Reg → String → Option Reg := fun r u => match r with
+      | none => none
+      | some reg => if u == "-" then some (setUniqueId reg reg.counter).1
+                    else (u.toNat?).map fun n => (setUniqueId reg n).1
+    match uids.foldl step (some {}) with
+    | some reg => (d, s!"{reg.counter} " ++ showNats reg.ids)
+    | none => (d, "bad-op")
   | ["fmt", n, q] => match n.toNat?, parseRat? q with
     | some n, some q => (d, showRat (fmtDigits n q))
     | _, _ => (d, "bad-op")
